@@ -57,10 +57,6 @@ def run_job(job):
     ex = vx.make_executor(PROG, harness, opts)
     for k in opts.get('no_summaries', ()):
         ex.summaries.pop(k, None)
-    if opts.get('cuts'):
-        import cuts
-        for callee, cutname in opts['cuts'].items():
-            ex.cuts[callee] = getattr(cuts, cutname)
     err = None
     try:
         ex.run(harness, args, deadline=t0 + opts.get('job_budget', 600))
